@@ -5,7 +5,21 @@ ALL = sorted(glob.glob('/repo/src/common/*.cc') + glob.glob('/repo/src/server/*.
 UNITS = {
   'case': dict(src=['harness/w_c16.cc', HH], mode='inl', roots=['vp_lower', 'vp_equal', 'vp_equal_static']),
 }
+HHDR = '/repo/src/common/http_header.cc'
+OFFSETS = ['harness/offsets_http.cc']
+_P, _PK = '_ZN8Pistache4Http6Header', '_ZNK8Pistache4Http6Header'
+UNITS['hdr'] = dict(src=HHDR, mode='sel', roots=[_P + '10Connection8parseRawEPKcm', _PK + '10Connection5writeERSo', _P + '14EncodingHeader8parseRawEPKcm', _PK + '14EncodingHeader5writeERSo',
+    _P + '6Expect8parseRawEPKcm', _PK + '6Expect5writeERSo', _P + '13ContentLength5parseERKNSt7__cxx1112basic_stringIcSt11char_traitsIcESaIcEEE', _PK + '13ContentLength5writeERSo'])
+_MS = '_ZN8Pistache12match_stringEPKcmRNS_12StreamCursorENS_15CaseSensitivityE'
+def _typed(name, defs, bound, witness=True):
+    return dict(name=name, units=['hdr'], file='c16_typed.c', defs=defs, unwind=24, unwindset={_MS + '.0': 25, 'gos_put.0': 25}, hunwind=34, witness=witness, bound=bound,
+                desc='(c) typed header: write -> parse(written text) yields an equal header; writing it again yields identical text')
 HARNESSES = [
+  _typed('typed_connection', {'H_CONN': None}, 'Connection: every control value (Close, Keep-Alive, Ext)'),
+  _typed('typed_encoding', {'H_ENC': None}, 'Content-Encoding / Transfer-Encoding: every encoding (gzip, compress, deflate, identity, chunked, unknown)'),
+  _typed('typed_expect', {'H_EXPECT': None}, 'Expect: 100-continue and other', witness=False),
+  _typed('typed_content_length', {'H_CLEN': None, 'NDIG': 4}, 'Content-Length: every value of 1..4 digits'),
+  _typed('typed_content_length_max', {'H_CLEN': None, 'CL_MAX': None}, 'Content-Length: 2^64-1', witness=False),
   dict(name='case_fold_l1', units=['case'], file='c16_case.c', defs={'L': 1}, unwind=6, bound='all pairs of strings of length <= 1 over all 256 byte values (every single byte against every single byte)',
        desc='(a) as case_fold, the single-character base case: exactly the 26 ASCII letter pairs are identified'),
   dict(name='case_fold', units=['case'], file='c16_case.c', defs={'L': 3}, unwind=8, thorough=dict(defs={'L': 6}, unwind=11),
@@ -15,4 +29,5 @@ HARNESSES = [
 ]
 ASSUMPTIONS = ['tolower is the C-locale table (the build defines ONLY_C_LOCALE); std::hash<std::string> is a function of the bytes (trusted)',
                'unordered_map::insert keeps the first value / find uses hash+equal (libstdc++ container semantics trusted)']
-OUTSIDE = ['Date header (Hinnant date + iostreams)']
+ASSUMPTIONS += ['typed header harnesses: std::ostream is a byte log; operator<<(unsigned long) prints the decimal digits the harness chose for the value (num_put outside); std::stoull is the strtoull model; cursor primitives are the contracts proven by C03']
+OUTSIDE = ['Date header (Hinnant date + iostreams)', 'CacheControl, Host (see C19), Authorization (see C20), Accept/Allow (no reader or no writer), string-valued headers (identity)']
